@@ -11,7 +11,8 @@ fi
 cd /repo || exit 2
 if ! git diff --quiet; then echo "seed_test: /repo has uncommitted changes"; exit 2; fi
 git apply "$PATCH" || { echo "seed_test: patch does not apply"; exit 2; }
-trap 'git -C /repo checkout -- . ; git -C /repo clean -fdq tests 2>/dev/null' EXIT INT TERM
+rm -rf "$ROOT/.cache/evidence.bak"; cp -r "$ROOT/evidence" "$ROOT/.cache/evidence.bak"
+trap 'git -C /repo checkout -- . ; git -C /repo clean -fdq tests 2>/dev/null; rm -rf "'$ROOT'/evidence"; cp -r "'$ROOT'/.cache/evidence.bak" "'$ROOT'/evidence"' EXIT INT TERM
 cd "$ROOT"
 for p in $PROPS; do
   out=$(./check $p 2>/dev/null | grep -E "^(VIOLATION|OK|KNOWN)" | tr '\n' ' ')
